@@ -22,6 +22,8 @@ use crate::{
     },
     sparse::SparseMatrix,
 };
+#[cfg(ldpc_toolbox_verif)]
+use crate::verif_seam::{ctrlc, std};
 use clap::{Parser, ValueEnum};
 use console::Term;
 use std::{
